@@ -40,6 +40,12 @@ ENV = {'classes': [
                  _f('items', 'list', default={'l': []}), _f('opts', 'dict', default={'d': []})]],
     [MOD + 'S', [_f('p', ['obj', MOD + 'P']), _f('q', ['obj', MOD + 'Q'], noneable=True, default=None),
                  _f('z', 'any', noneable=True, default=None)]],
+    [MOD + 'W', [_f('inner', ['obj', MOD + 'P'], default={'o': MOD + 'P', 'a': [['x', 1], ['y', 'a']]}),
+                 _f('tags', 'list', default={'l': []}), _f('n', 'int', default=0)]],
+    [MOD + 'W2', [_f('w', ['obj', MOD + 'W'],
+                     default={'o': MOD + 'W', 'a': [['inner', {'o': MOD + 'P', 'a': [['x', 1], ['y', 'a']]}],
+                                                    ['tags', {'l': []}], ['n', 0]]}),
+                  _f('k', 'str', default='k'), _f('extra', 'dict', default={'d': []})]],
 ]}
 # A class that is importable but not registered (auto_register = False): seen only with auto_import.
 N_CLASS = [MOD + 'N', [_f('x', 'int'), _f('w', 'any', noneable=True, default=None)]]
@@ -541,6 +547,111 @@ def gen_nest(rng, depth, top=True):
   return rng.choice([{'t': [1]}, {'t': []}, {'t': ['s', 1]}, {'t': [None, 1]}, {'l': [{'t': [1]}]}])
 
 
+SEQ_PATHS = {
+    'mem': ['/mem/sq/a.mem', '/mem/sq/b.mem'],
+    'memN': ['/mem/sq/a.mem@3', '/mem/sq/a.mem@4'],
+    'line': ['/mem/sq/a.jsonl', '/mem/sq/deep/b.jsonl'],
+    'std': ['a.jsonl', 'sub/b.jsonl'],
+}
+
+
+def gen_seq_case(rng):
+  """Histories on one sequence backend with aliasing steps: read, change a returned record in
+  place, read again (same / second reader, also after re-opening for append)."""
+  backend = rng.weighted([(4, 'mem'), (3, 'memN'), (3, 'line'), (2, 'std')])
+  def record():
+    k = rng.below(5)
+    if k == 0:
+      return rng.choice([1, 'r', None])
+    if k <= 2:
+      return {'d': [[rng.choice(['a', 'b', 'k']), rng.choice([1, 'x', {'l': [1]}])]]}
+    return {'l': [rng.below(5) for _ in range(rng.below(3))]}
+  ops, reads, started = [], 0, set()
+  for _ in range(rng.randint(3, 10)):
+    p = rng.below(2)
+    k = rng.weighted([(4, 'add'), (4, 'read'), (3 if reads else 0, 'mutate'), (2, 'read2')])
+    if p not in started:
+      k = 'add'
+    if k == 'add':
+      m = 'w' if p not in started or rng.chance(0.2) else 'a'
+      started.add(p)
+      ops.append({'k': 'add', 'p': p, 'm': m, 'v': [record() for _ in range(rng.randint(1, 3))]})
+    elif k == 'mutate':
+      ops.append({'k': 'mutate', 'r': rng.below(reads), 'i': rng.below(3)})
+    else:
+      ops.append({'k': k, 'p': p})
+      reads += 1
+  return {'kind': 'seq', 'backend': backend, 'ops': ops}
+
+
+def _P(x=1, y='a'):
+  return {'o': MOD + 'P', 'a': [['x', x], ['y', y]]}
+
+
+def _W(inner=None, tags=None, n=0):
+  return {'o': MOD + 'W', 'a': [['inner', inner or _P()], ['tags', {'l': tags or []}], ['n', n]]}
+
+
+def _W2(w=None, k='k', extra=None):
+  return {'o': MOD + 'W2', 'a': [['w', w or _W()], ['k', k], ['extra', {'d': extra or []}]]}
+
+
+W_PATHS = [['n'], ['inner', 'y'], ['inner', 'x'], ['tags']]
+W2_PATHS = [['k'], ['extra']] + [['w'] + q for q in W_PATHS]
+
+
+def gen_hist_case(rng):
+  """Histories around serialisation: serialise (every option combination, as JSON / text / saved
+  file), change the value at depth 1, 2 or 3 (attribute, list append, dict key), query the memoised
+  derived state, serialise again. Values start at — and are moved back to — their field defaults."""
+  w2 = _W2() if rng.chance(0.6) else _W2(w=_W(inner=_P(rng.choice([1, 2]), rng.choice(['a', 'b'])), n=rng.below(2)),
+                                          k=rng.choice(['k', 'z']))
+  w = _W() if rng.chance(0.6) else _W(inner=_P(3, 'c'), tags=[1])
+  t = rng.below(5)
+  if t == 0:
+    root, targets = w2, [([], 'W2')]
+  elif t == 1:
+    root, targets = {'d': [['a', w2], ['b', {'l': [w]}]]}, [(['a'], 'W2'), (['b', 0], 'W')]
+  elif t == 2:
+    root, targets = {'o': MOD + 'Q', 'a': [['a', w2], ['b', False], ['n', None]]}, [(['a'], 'W2')]
+  elif t == 3:
+    root = {'o': MOD + 'R', 'a': [['k', 'kind-r'], ['items', {'l': [w]}], ['opts', {'d': [['o', w2]]}]]}
+    targets = [(['items', 0], 'W'), (['opts', 'o'], 'W2')]
+  else:
+    root = {'o': MOD + 'S', 'a': [['p', _P()], ['q', None], ['z', w]]}
+    targets = [(['z'], 'W'), ([], 'S')]
+  steps = []
+
+  def ser():
+    opts = None if rng.chance(0.25) else {'hide_frozen': rng.chance(0.6), 'hide_default_values': rng.chance(0.75)}
+    return {'op': 'ser', 'opts': opts, 'via': rng.weighted([(5, 'json'), (2, 'str'), (2, 'save')])}
+  steps.append(ser())
+  for _ in range(rng.randint(2, 7)):
+    k = rng.weighted([(5, 'mutate'), (5, 'ser'), (1, 'query')])
+    if k == 'ser':
+      steps.append(ser())
+    elif k == 'query':
+      steps.append({'op': 'query'})
+    else:
+      prefix, kind = rng.choice(targets)
+      if kind == 'S':
+        steps.append({'op': 'set', 'path': ['p', rng.choice(['x', 'y'])], 'v': None})
+      else:
+        q = rng.choice(W2_PATHS if kind == 'W2' else W_PATHS)
+        path = prefix + q
+        if q[-1] == 'tags':
+          steps.append({'op': 'append', 'path': path, 'v': rng.choice([1, 'x', {'l': [2]}])})
+        elif q[-1] == 'extra':
+          steps.append({'op': 'setkey', 'path': path, 'key': rng.choice(['e', 'f']), 'v': rng.choice([1, 'x'])})
+        else:
+          steps.append({'op': 'set', 'path': path, 'v': None})
+      if steps[-1]['op'] == 'set':
+        last = steps[-1]['path'][-1]
+        steps[-1]['v'] = rng.choice([0, 1, 2, 5]) if last in ('x', 'n') else rng.choice(['a', 'b', 'k', 'z'])
+  steps.append(ser())
+  return {'kind': 'hist', 'value': root, 'steps': steps}
+
+
 def gen_dna_case(rng):
   tg = TreeGen(rng, floats=False, objects=False)
   meta = None
@@ -744,7 +855,7 @@ class _Impl:
     pg = self.pg
     vs = pg.typing
     out = []
-    for name in ('P', 'Q', 'R', 'S'):
+    for name in ('P', 'Q', 'R', 'S', 'W', 'W2'):
       cls = self.classes[name]
       fields = []
       for key, field in cls.__schema__.fields.items():
@@ -1425,6 +1536,203 @@ class _Impl:
             'empty_tuple': '"t": []' in json.dumps(wire(spec)),
             'empty_fixed_tuple': '["tuplef", []' in json.dumps(wire(spec))}
 
+  # -- histories around serialisation ----------------------------------------------------------
+  def hist_apply(self, v, step):
+    pg = self.pg
+    node = v
+    for k in step['path'][:-1]:
+      node = node.sym_getattr(k)
+    last = step['path'][-1]
+    if step['op'] == 'set':
+      if isinstance(node, pg.List):
+        node[last] = self.build(step['v'])
+      else:
+        node.rebind({last: self.build(step['v'])})
+    elif step['op'] == 'append':
+      node.sym_getattr(last).append(self.build(step['v']))
+    else:
+      node.sym_getattr(last)[step['key']] = self.build(step['v'])
+
+  def hist_query(self, v):
+    pg = self.pg
+
+    def visit(n):
+      if isinstance(n, pg.Symbolic):
+        _ = n.sym_nondefault()
+        _ = n.sym_missing()
+        _ = n.is_partial
+        for _, c in n.sym_items():
+          visit(c)
+    visit(v)
+
+  def hist_states(self, case):
+    """The value (tree wire) and the options at every serialisation of the history."""
+    v = self.build(case['value'])
+    out = []
+    for step in case['steps']:
+      if step['op'] == 'ser':
+        out.append((self.to_wire(v), step['opts']))
+      elif step['op'] != 'query':
+        try:
+          self.hist_apply(v, step)
+        except Exception:   # pylint: disable=broad-except
+          pass
+    return out
+
+  def hist(self, case):
+    pg = self.pg
+    v = self.build(case['value'])
+    outs, model = [], []
+    path = '/mem/c05_hist/value.json'
+    self.reset_mem()
+    for step in case['steps']:
+      if step['op'] == 'query':
+        self.hist_query(v)
+        outs.append(None)
+        continue
+      if step['op'] != 'ser':
+        outs.append(self.attempt(lambda: self.hist_apply(v, step)).get('err'))
+        continue
+      kw = step['opts'] or {}
+      cur = self.to_wire(v)
+      fresh = self.build(cur)
+      if step['via'] == 'json':
+        j = pg.to_json(v, **kw)
+        loaded = self.attempt(lambda: pg.from_json(pg.to_json(v, **kw), allow_partial=True))
+      elif step['via'] == 'str':
+        text = pg.to_json_str(v, **kw)
+        j = json.loads(text)
+        loaded = self.attempt(lambda: pg.from_json_str(text, allow_partial=True))
+      else:
+        pg.save(v, path, **kw)
+        j = json.loads(self.pg_io.readfile(path))
+        loaded = self.attempt(lambda: pg.load(path))
+      jf = pg.to_json(fresh, **kw)
+      rec = {'json': self.jv_wire(j), 'fresh_same': self.jv_wire(j) == self.jv_wire(jf), 'cur': cur,
+             'rt': {'ok': self.to_wire(loaded['ok'])} if 'ok' in loaded else loaded}
+      outs.append(rec)
+      model.append({'json': rec['json'], 'rt': rec['rt']})
+    self.reset_mem()
+    return {'outs': outs, 'model': {'outs': model}}
+
+  # -- sequence backends: aliasing between what a read returns and what the store holds --------
+  def mutate_in_place(self, x):
+    pg = self.pg
+    try:
+      if isinstance(x, dict):
+        x['zz_mut'] = 1
+      elif isinstance(x, list):
+        x.append('zz_mut')
+    except Exception:   # pylint: disable=broad-except
+      pass
+
+  def seq(self, case):
+    pg, pg_io = self.pg, self.pg_io
+    from pyglove.core.io import sequence as seq_mod
+    for ext in ('x.mem',):
+      io = seq_mod._registry.get(ext)                # pylint: disable=protected-access
+      if hasattr(io, '_root'):
+        io._root.clear()                             # pylint: disable=protected-access
+      if hasattr(io, '_decoded'):
+        io._decoded.clear()                          # pylint: disable=protected-access
+    self.reset_mem()
+    tmp = self.tempfile.TemporaryDirectory(prefix='c05-seq-') if case['backend'] == 'std' else None
+    paths = [os.path.join(tmp.name, q) if tmp else q for q in SEQ_PATHS[case['backend']]]
+    outs, held = [], []
+    try:
+      for op in case['ops']:
+        try:
+          if op['k'] == 'add':
+            with pg.open_jsonl(paths[op['p']], op['m']) as f:
+              for v in op['v']:
+                f.add(self.build(v))
+            outs.append(None)
+          elif op['k'] == 'mutate':
+            recs = held[op['r']]
+            if op['i'] < len(recs):
+              self.mutate_in_place(recs[op['i']])
+            outs.append(None)
+          else:
+            path = paths[op['p']]
+            if op['k'] == 'read2':
+              g1, g2 = pg.open_jsonl(path, 'r'), pg.open_jsonl(path, 'r')
+              first = list(iter(g1))
+              for x in first:
+                self.mutate_in_place(x)
+              recs = list(iter(g2))
+              g1.close()
+              g2.close()
+            else:
+              with pg.open_jsonl(path, 'r') as f:
+                recs = list(iter(f))
+            held.append(recs)
+            with pg_io.open_sequence(path, 'r') as f:
+              raw = list(iter(f))
+            outs.append({'r': raw, 'v': [self.to_wire(x) for x in recs]})
+        except Exception as e:   # pylint: disable=broad-except
+          if op['k'] in ('read', 'read2'):
+            held.append([])
+          outs.append({'err': type(e).__name__})
+    finally:
+      if tmp:
+        tmp.cleanup()
+    self.reset_mem()
+    return {'outs': outs, 'model': {'reads': [{'r': o['r']} if isinstance(o, dict) and 'r' in o else o
+                                              for op, o in zip(case['ops'], outs) if op['k'] in ('read', 'read2')]}}
+
+  # -- callables of every origin -------------------------------------------------------------
+  PLAIN_FN = ('module-def', 'module-lambda', 'class-body-def', 'class-body-lambda', 'nested-def', 'nested-lambda')
+
+  def callable_case(self, case):
+    pg = self.pg
+    origin, wrap = case['origin'], case['wrap']
+    f = self.mod.CALLABLES[origin]
+    if wrap == 'leaf':
+      v, fields = pg.Dict(f=f, k=1), [('f', origin)]
+    elif wrap == 'list':
+      v, fields = pg.Dict(f=pg.List([1, f])), [('f', origin)]
+    elif wrap == 'field':
+      v, fields = self.mod.FD(fn=f, x=1), [('fn', origin)]
+    else:     # the unchanged defaults of the class: a module lambda, a module def, a class-body lambda
+      v, fields = self.mod.FD(), [('fn', 'module-lambda'), ('gn', 'module-def'), ('hn', 'class-body-lambda')]
+
+    def pick(x, name):
+      r = x.sym_getattr(name) if isinstance(x, pg.Object) else x[name]
+      return r[1] if isinstance(r, list) else r
+
+    def behave(g):
+      return self.attempt(lambda: g('abc') if g is len or getattr(g, '__name__', '') == 'len' else g(3))
+
+    j = self.attempt(lambda: pg.to_json(v))
+    if 'err' in j:
+      return {'problems': ['to_json raises %s' % j['err']], 'model': None}
+    model = {}
+    for name, org in fields:
+      node = j['ok'][name]
+      node = node[1] if isinstance(node, list) else node
+      if org in self.PLAIN_FN:
+        model[org] = isinstance(node, dict) and 'code' in node
+    problems = []
+    path = '/mem/c05_callable/value.json'
+    for form, g in (('obj', lambda: pg.from_json(pg.to_json(v))),
+                    ('str', lambda: pg.from_json_str(pg.to_json_str(v))),
+                    ('save-load', lambda: (pg.save(v, path), pg.load(path))[1])):
+      res = self.attempt(g)
+      if 'err' in res:
+        problems.append('[%s] raises %s' % (form, res['err']))
+        continue
+      r = res['ok']
+      if type(r) is not type(v):
+        problems.append('[%s] type' % form)
+        continue
+      for name, org in fields:
+        a, b = pick(v, name), pick(r, name)
+        if behave(a) != behave(b):
+          problems.append('[%s] %s behaves differently after the round trip' % (form, name))
+        elif org in ('module-def', 'class-body-def', 'builtin', 'classmethod') and not (a == b):
+          problems.append('[%s] %s is not the same function' % (form, name))
+    return {'problems': problems, 'model': model}
+
   # -- DNA ---------------------------------------------------------------------------------------
   def py_nest(self, n):
     if isinstance(n, dict):
@@ -1686,7 +1994,7 @@ class C05(Prop):
   id = 'C05'
   props_modules = ['PgProps.C05']
   driver = 'drv_c05'
-  translators = [t_c05.run]
+  translators = [t_c05.run, t_c05.run_fn]
   case_timeout_s = 30
   rule = ('codec: values generated as trees (leaves None/bool/small+big ints/float tokens incl. inf,-0.0,nan/'
           'strings with control, non-BMP and marker-like text; pg.List, tuples, pg.Dict with str and int keys, '
@@ -1698,7 +2006,11 @@ class C05(Prop):
           '(replayed on a temp dir of the OS file system too) plus a messy stream (paths inside files, '
           'double slashes); hstore: histories over 1-3 paths with OPEN HANDLES as state (open r/w/a, partial '
           'read / readline / write through the handle, handles left open across later save / overwrite / '
-          'append / load of the same path, closed later or never; own-position abstract store as spec); spec: value specs / schemas / geno specs / DNA / functions. Non-trivial: a '
+          'append / load of the same path, closed later or never; own-position abstract store as spec); '
+          'hist: serialise / mutate at depth 1-3 / query memoised state / serialise again under all options, via '
+          'JSON, text and saved file; callable: functions of 9 origins from an importable module as leaf, list item, '
+          'field value and unchanged field default; seq: add / read / mutate-returned-record / two readers on '
+          '.mem, .mem@N, line sequences on /mem and the OS file system; spec: value specs / schemas / geno specs / DNA / functions. Non-trivial: a '
           'container or object value, a history with a write and a later read, a composite spec.')
   trusted_base = [
       "Python's json.dumps / json.loads (the text layer is an abstract bijection in the string-form theorem)",
@@ -1791,6 +2103,16 @@ class C05(Prop):
       yield gen_dna_case(rng)
     for i in range(400 if quick else 12000):
       yield gen_vspec_case(rng)
+    for i in range(300 if quick else 12000):
+      yield gen_seq_case(rng)
+    for i in range(300 if quick else 12000):
+      yield gen_hist_case(rng)
+    origins = ['module-def', 'module-lambda', 'class-body-lambda', 'class-body-def', 'nested-def', 'nested-lambda',
+               'builtin', 'classmethod', 'partial']
+    for origin in origins:                       # small and exhaustive: every origin in every position
+      for wrap in ('leaf', 'list', 'field'):
+        yield {'kind': 'callable', 'origin': origin, 'wrap': wrap}
+    yield {'kind': 'callable', 'origin': 'module-lambda', 'wrap': 'default'}
     for i in range(200 if quick else 6000):
       what = rng.weighted([(4, 'hyper'), (4, 'dnaspec'), (2, 'diff'), (2, 'functor')])
       if what in ('hyper', 'dnaspec'):
@@ -1853,6 +2175,12 @@ class C05(Prop):
       return im.vspec(case)
     if k == 'dyn':
       return im.dyn(case)
+    if k == 'callable':
+      return im.callable_case(case)
+    if k == 'seq':
+      return im.seq(case)
+    if k == 'hist':
+      return im.hist(case)
     raise AssertionError(k)
 
   def model_request(self, case):
@@ -1866,6 +2194,39 @@ class C05(Prop):
         req['hide_frozen'] = case['opts']['hide_frozen']
         req['hide_default_values'] = case['opts']['hide_default_values']
       return req
+    if k == 'callable':
+      return {'op': 'fn'}
+    if k == 'hist':
+      self.setup_impl()
+      items = []
+      for cur, opts in C05._impl.hist_states(case):
+        o = opts or {'hide_frozen': True, 'hide_default_values': False}
+        items.append({'value': cur, 'hide_frozen': o['hide_frozen'], 'hide_default_values': o['hide_default_values']})
+      return {'op': 'codec_many', 'env': ENV, 'items': items}
+    if k == 'seq':
+      b = case['backend']
+      if b == 'std':
+        return None
+      paths = SEQ_PATHS[b]
+      if b in ('mem', 'memN'):
+        ops = []
+        for op in case['ops']:
+          if op['k'] == 'add':
+            ops.append({'k': 'add', 'p': paths[op['p']], 'm': op['m'], 'r': [json_text_of_tree(v) for v in op['v']]})
+          elif op['k'] == 'mutate':
+            ops.append({'k': 'mutate'})
+          else:
+            ops.append({'k': 'read', 'p': paths[op['p']]})
+        return {'op': 'memseq', 'ops': ops}
+      ops = []
+      for op in case['ops']:
+        if op['k'] == 'add':
+          ops.append({'k': 'seqw', 'p': paths[op['p']], 'm': op['m'], 'r': [json_text_of_tree(v) for v in op['v']]})
+        elif op['k'] == 'mutate':
+          ops.append({'k': 'exists', 'p': paths[0]})
+        else:
+          ops.append({'k': 'seqr', 'p': paths[op['p']]})
+      return {'op': 'store', 'cfg': 'patched', 'ops': ops}
     if k == 'dyn':
       self.setup_impl()
       im = C05._impl
@@ -1916,6 +2277,23 @@ class C05(Prop):
 
   def compare(self, case, impl_out, model_out):
     k = case['kind']
+    if k == 'hist':
+      a, b = impl_out['model']['outs'], model_out['outs']
+      for i, (x, y) in enumerate(zip(a, b)):
+        if x != y:
+          return 'serialisation %d of the history: impl=%s model=%s' % (i, json.dumps(x)[:300], json.dumps(y)[:300])
+      return None if len(a) == len(b) else 'different number of serialisations'
+    if k == 'seq':
+      reads = [o for op, o in zip(case['ops'], model_out['outs']) if op['k'] in ('read', 'read2')]
+      a = impl_out['model']['reads']
+      return None if a == reads else 'sequence reads: impl=%s model=%s' % (json.dumps(a)[:300], json.dumps(reads)[:300])
+    if k == 'callable':
+      if impl_out.get('model') is None:
+        return None
+      for org, by_code in impl_out['model'].items():
+        if model_out.get(org) != by_code:
+          return 'function of origin %s: written by code = %s, model says %s' % (org, by_code, model_out.get(org))
+      return None
     if k == 'dyn':
       case = {'value': impl_out['wire'], 'kind': 'codec'}
       k = 'codec'
@@ -1987,6 +2365,43 @@ class C05(Prop):
     k = case['kind']
     if k == 'dyn':
       return self.oracle({'kind': 'codec', 'value': out['wire'], 'ap': False}, out)
+    if k == 'hist':
+      n = 0
+      for i, (step, o) in enumerate(zip(case['steps'], out['outs'])):
+        if step['op'] != 'ser':
+          continue
+        n += 1
+        what = None
+        if not o['fresh_same']:
+          what = 'differs from the serialisation of a freshly built equal value'
+        elif o['rt'] != {'ok': o['cur']}:
+          what = 'does not load back to the current value: %s' % json.dumps(o['rt'])[:200]
+        if what:
+          return {'signature': 'hist:%s:%s' % ('first' if n == 1 else 'later', what.split(':')[0][:50]),
+                  'what': 'step %d (%s, options %s, serialisation no. %d of the history) %s' % (
+                      i, step['via'], step['opts'], n, what)}
+      return None
+    if k == 'seq':
+      spec = {}
+      for i, (op, o) in enumerate(zip(case['ops'], out['outs'])):
+        err = isinstance(o, dict) and o.get('err')
+        if op['k'] == 'add':
+          if err:
+            return {'signature': 'seq:add-raises', 'what': 'op %d raises %s' % (i, err)}
+          spec[op['p']] = (list(spec.get(op['p'], [])) if op['m'] == 'a' else []) + list(op['v'])
+        elif op['k'] in ('read', 'read2'):
+          want = spec.get(op['p'], [])
+          if err or o['v'] != want:
+            return {'signature': 'seq:%s:read-differs-from-appended' % case['backend'],
+                    'what': 'op %d (%s on backend %s): read gives %s, appended %s' % (
+                        i, op['k'], case['backend'], json.dumps(o)[:200], json.dumps(want)[:200])}
+      return None
+    if k == 'callable':
+      if out['problems']:
+        return {'signature': 'callable:%s:%s' % (case['origin'] if case['wrap'] != 'default' else 'field-default',
+                                                  out['problems'][0].split('] ')[-1].split(' raises')[0][:40]),
+                'what': 'callable %s as %s: %s' % (case['origin'], case['wrap'], '; '.join(out['problems']))}
+      return None
     if k == 'codec':
       if 'build_error' in out:
         return None
@@ -2258,8 +2673,12 @@ class C05(Prop):
       return isinstance(case['nest'], dict) and 'q' not in case['nest']
     if k == 'vspec':
       return 'extra' in case or case['desc']['k'] in ('list', 'tuple', 'dict', 'union')
-    if k == 'dyn':
+    if k in ('dyn', 'callable'):
       return True
+    if k == 'seq':
+      return any(op['k'] == 'mutate' or op['k'] == 'read2' for op in case['ops'])
+    if k == 'hist':
+      return any(st['op'] in ('set', 'append', 'setkey') for st in case['steps'])
     if k in ('store', 'hstore'):
       ops = case['ops']
       wrote = set()
@@ -2305,6 +2724,21 @@ class C05(Prop):
     elif k in ('load', 'load_str'):
       rt = out['model']['rt']
       h.append('%s%s:%s' % (k, '+auto_dict' if case.get('auto_dict') else '', 'ok' if 'ok' in rt else rt['err']))
+    elif k == 'hist':
+      for st in case['steps']:
+        if st['op'] == 'ser':
+          h.append('hist:ser:%s:%s' % (st['via'], 'default-options' if st['opts'] is None else
+                                       'hide_frozen=%s,hide_default=%s' % (st['opts']['hide_frozen'], st['opts']['hide_default_values'])))
+        elif st['op'] == 'query':
+          h.append('hist:query')
+        else:
+          h.append('hist:%s:depth=%d' % (st['op'], len(st['path'])))
+    elif k == 'seq':
+      h.append('seq:backend=' + case['backend'])
+      for op, o in zip(case['ops'], out['outs']):
+        h.append('seq:op:%s%s' % (op['k'], ':' + o['err'] if isinstance(o, dict) and o.get('err') else ''))
+    elif k == 'callable':
+      h.append('callable:%s:%s' % (case['origin'], case['wrap']))
     elif k == 'dyn':
       h.append('dyn:' + case['what'])
       if 'model' in out:
@@ -2340,6 +2774,22 @@ class C05(Prop):
 
   def shrink_candidates(self, case):
     k = case['kind']
+    if k == 'hist':
+      steps = case['steps']
+      for i in range(len(steps)):
+        c = dict(case)
+        c['steps'] = steps[:i] + steps[i + 1:]
+        if any(st['op'] == 'ser' for st in c['steps']):
+          yield c
+    if k == 'seq':
+      ops = case['ops']
+      for i in range(len(ops)):
+        if ops[i]['k'] in ('read', 'read2') and any(o['k'] == 'mutate' for o in ops[i + 1:]):
+          continue          # keeps the numbering of the reads
+        c = dict(case)
+        c['ops'] = ops[:i] + ops[i + 1:]
+        if c['ops']:
+          yield c
     if k == 'hstore':
       ops = case['ops']
       for i in range(len(ops)):
